@@ -3,6 +3,7 @@ package main
 // Evaluation of specification expressions to SMT terms.
 
 import (
+	"strconv"
 	"fmt"
 	"sort"
 	"go/constant"
@@ -255,6 +256,19 @@ func (vc *VC) evalSpec(e *Expr, env *SpecEnv) SV {
 		if env.role == 2 && env.pol > 0 && e.Name == "forall" && len(e.Vars) <= 2 && !vc.dry {
 			cp := *env
 			cp.role, cp.pol = 0, 0
+			// the hypothesis speaks about the state at the point where it is assumed: snapshot it (the
+			// executing state is mutated in place afterwards)
+			if cp.cur != nil {
+				cp.cur = cp.cur.clone()
+			}
+			if cp.old != nil {
+				cp.old = cp.old.clone()
+			}
+			cpv := make(map[string]SV, len(cp.vars))
+			for k, v := range cp.vars {
+				cpv[k] = v
+			}
+			cp.vars = cpv
 			vc.qhyps = append(vc.qhyps, qhyp{e: e, env: &cp, path: append([]T{}, env.path...)})
 		}
 		var extraInst []T
@@ -765,6 +779,48 @@ func (vc *VC) evalCall(e *Expr, env *SpecEnv) SV {
 			return mathBool(not(vc.nilOf(x)))
 		}
 		return mathBool(tTrue)
+	case "iterpos", "iterlen", "iterkey", "iteridx":
+		// the N-th `range m` over a map in this function (source order): position, number of keys, i-th key
+		// visited, index at which a key is visited
+		if len(args) < 1 || args[0].Op != "num" {
+			vc.errorf("spec: %s(N, ...) needs a literal range ordinal", fn)
+			return mathInt("0")
+		}
+		n, _ := strconv.Atoi(args[0].Name)
+		ks := vc.rangeKeySort(n)
+		if ks == "" {
+			vc.errorf("spec: %s: no range over a map with ordinal %d in this function", fn, n)
+			return mathInt("0")
+		}
+		ln, key, idx := vc.rangeSyms(n, ks)
+		switch fn {
+		case "iterpos":
+			vc.ensureHeap("Hrng", "Int", nil, false)
+			return mathInt(sel(vc.heapGet(env.cur, "Hrng"), args[0].Name))
+		case "iterlen":
+			return mathInt(ln)
+		case "iterkey":
+			return SV{t: app(key, ev(1).t), srt: ks}
+		default:
+			return mathInt(app(idx, ev(1).t))
+		}
+	case "wit":
+		// wit("name", args...): an integer-valued witness function that is fresh for every application of the
+		// contract it occurs in (e.g. the permutation a sorting routine applies)
+		if len(args) < 1 || args[0].Op != "str" {
+			vc.errorf("spec: wit(\"name\", args...)")
+			return mathInt("0")
+		}
+		sym := fmt.Sprintf("wit_%s_%d", sanitize(args[0].Name), vc.curApp)
+		var as []T
+		var sorts []string
+		for i := 1; i < len(args); i++ {
+			a := ev(i)
+			as = append(as, a.t)
+			sorts = append(sorts, a.sortIn(vc))
+		}
+		vc.declRaw("fn:"+sym, "(declare-fun "+sym+" ("+strings.Join(sorts, " ")+") Int)")
+		return mathInt(app(sym, as...))
 	case "global":
 		// global("import/path.Name"): the current value of a package-level variable of any loaded package
 		if len(args) != 1 || args[0].Op != "str" {
@@ -795,6 +851,15 @@ func (vc *VC) evalCall(e *Expr, env *SpecEnv) SV {
 		}
 		_, hp, _, _ := vc.mapHeaps(mt)
 		return mathBool(and(not(eq(m.t, "0")), sel(sel(vc.heapGet(env.cur, hp), m.t), k.t)))
+	case "bytes":
+		// bytes(s): []byte(s) for a string in value mode
+		x := ev(0)
+		if x.sortIn(vc) != "Str" {
+			vc.errorf("spec: bytes(s) needs a string")
+			return SV{t: "bytes_nil", srt: "Bytes"}
+		}
+		vc.declBytesStr()
+		return SV{t: app("str2bytes", x.t), srt: "Bytes"}
 	case "str":
 		// str(b): string(b) for a []byte in value mode
 		b := ev(0)
@@ -886,7 +951,21 @@ func (vc *VC) evalCall(e *Expr, env *SpecEnv) SV {
 	case "upd":
 		a, i, v := ev(0), ev(1), ev(2)
 		r := a
-		r.t = sto(a.t, i.t, v.t)
+		vt := v.t
+		if v.srt == "nil" {
+			// nil of the array's element sort
+			switch arrayElemSort(a.sortIn(vc)) {
+			case "Bytes":
+				vt = "bytes_nil"
+			case "Coins":
+				vt = "coins_nil"
+			case "Int":
+				vt = "0"
+			default:
+				vc.errorf("spec: upd(..., nil) for element sort %s", arrayElemSort(a.sortIn(vc)))
+			}
+		}
+		r.t = sto(a.t, i.t, vt)
 		return r
 	case "amt":
 		c, d := ev(0), ev(1)
